@@ -95,6 +95,21 @@ theorem ssh_rsa_blob_described (e n : Nat) (he3 : 3 ≤ e) (hodd : e % 2 = 1) (h
   simp [sshAttrs, toPub, cryptoAttrs, rsa_size_is_bitlen_fact, sshRsa, sb, strBytes]
 
 open WhatIs.SshWire WhatIs.Spec.SshWireText WhatIs.Lemmas.SshWire in
+/-- THE ssh-dss BLOB written for any q, g, y and any 1024-bit p (the only size x/crypto takes) is parsed to exactly those
+    numbers and described as DSA with the bit length of p -/
+theorem ssh_dsa_blob_described (p q g y : Nat) (hp : bitLen p = 1024)
+    (h1 : mpintLen p < 4294967296) (h2 : mpintLen q < 4294967296) (h3 : mpintLen g < 4294967296)
+    (h4 : mpintLen y < 4294967296) :
+    parsePublicKey (dsaBlob p q g y) = .ok sshDss (.dsa (p : Int) (q : Int) (g : Int) (y : Int)) ∧
+    sshBlobAttrs (dsaBlob p q g y) =
+      some [⟨sb "Type", sb "ssh-dss"⟩, ⟨sb "Algorithm", algName "DSA"⟩, sizeAttr 1024] := by
+  have h := parsePublicKey_dsaBlob p q g y hp h1 h2 h3 h4
+  refine ⟨h, ?_⟩
+  unfold sshBlobAttrs
+  rw [h]
+  simp [sshAttrs, toPub, cryptoAttrs, asn1Attrs, hp, sshDss, sb, strBytes]
+
+open WhatIs.SshWire WhatIs.Spec.SshWireText WhatIs.Lemmas.SshWire in
 /-- THE ssh-ed25519 BLOB (RFC 8709 §4) of any 32 octets -/
 theorem ssh_ed25519_blob_readback (k : Bytes) (hk : k.length = 32) :
     parsePublicKey (ed25519Blob k) = .ok sshEd25519 (.ed25519 k) := parsePublicKey_ed25519Blob k hk
@@ -109,6 +124,10 @@ example : sshBlobAttrs (rsaBlob 65537 32769) =
 example : parsePublicKey (rsaBlob 65536 32769) = .err ∧ parsePublicKey (rsaBlob 16777217 32769) = .err ∧
     parsePublicKey (rsaBlob 65537 32769 ++ [0]) = .err ∧ parsePublicKey ((rsaBlob 65537 32769).dropLast) = .err ∧
     parsePublicKey (ed25519Blob (List.replicate 31 7)) = .err := by decide
+/-- a DSA prime of 1023 or 1025 bits is refused (FIPS 186-2 sizes only) -/
+example : parsePublicKey (dsaBlob (2 ^ 1022) 7 2 5) = .err ∧ parsePublicKey (dsaBlob (2 ^ 1024) 7 2 5) = .err ∧
+    parsePublicKey (dsaBlob (2 ^ 1023) 7 2 5) = .ok sshDss (.dsa (2 ^ 1023) 7 2 5) := by
+  decide +kernel
 /-- a modulus written without the zero octet is a NEGATIVE number to the reader; its size is that of the magnitude -/
 example : parsePublicKey (str (strBytes "ssh-rsa") ++ str [1, 0, 1] ++ str [128, 1]) = .ok sshRsa (.rsa 65537 (-32767)) := by decide
 end sshwitnesses
